@@ -83,7 +83,7 @@ int main(int argc, char** argv) {
     RunOpts r = o;
     r.seed = have_seed ? o.seed : run_seed(base, (uint64_t)i);
     Plan rec;
-    if (!emit.empty()) r.record = &rec;
+    if (!emit.empty()) { r.record = &rec; r.emit_path = emit; }
     Result res;
     dispatch(r, res);
     res.str["flavour"] = flavour_name();
